@@ -618,3 +618,16 @@ func Normalize(md protoreflect.MessageDescriptor, v *Msg, r Resolver) *Msg {
 	}
 	return out
 }
+
+// Diff1 compares two scalar values of field fd bit-exactly (all NaNs one class).
+func Diff1(fd protoreflect.FieldDescriptor, a, b Val) string {
+	return diffVal(fd, a, b, EqualOpts{BitwiseFloats: true}, nil, string(fd.Name()))
+}
+
+// DiffUnknownRaw compares unknown bytes exactly (what SetUnknown stored must be what GetUnknown returns).
+func DiffUnknownRaw(want []byte, got []byte) string {
+	if !bytes.Equal(want, got) {
+		return fmt.Sprintf("unknown bytes %x, want %x", got, want)
+	}
+	return ""
+}
